@@ -5,7 +5,8 @@ except NameError:
     def assume(cond):
         return None
 import ast, json, sys
-from glom.cli import UsageError, isatty, is_scalar, _eval_python_full_spec, mw_handle_target, glom, Path, GlomError, Inspect
+from glom.cli import UsageError, isatty, _eval_python_full_spec, mw_handle_target, glom, Path, GlomError, Inspect, glom_cli, mw_get_target, get_command, PosArgSpec, Command
+from boltons.iterutils import is_scalar
 
 
 def glom_cli_ref(target, spec, indent, debug, inspect, scalar):
@@ -104,3 +105,25 @@ def get_target_ref(next_, posargs_, target_file, target_format, spec_file, spec_
         target_text = sys.stdin.read()
     target = mw_handle_target(target_text, target_format)
     return next_(spec=spec, target=target)
+
+
+def get_command_ref():
+    """the command line: up to two positional arguments, and flags whose values reach the middleware exactly as typed (formats are plain
+    strings compared literally by mw_get_target; the default spec format is 'python', the default target format 'json')"""
+    posargs = PosArgSpec(str, max_count=2, display={'label': '[spec [target]]'})
+    cmd = Command(glom_cli, posargs=posargs, middlewares=[mw_get_target])
+    cmd.add('--target-file', str, missing=None, doc='path to target data source')
+    cmd.add('--target-format', str, missing='json', doc='format of the source data (json or python)')
+    cmd.add('--spec-file', str, missing=None, doc='path to glom spec definition')
+    cmd.add('--spec-format', str, missing='python', doc='format of the glom spec definition (json, python, python-full)')
+    cmd.add('--indent', int, missing=2, doc='number of spaces to indent the result, 0 to disable pretty-printing')
+    cmd.add('--scalar', parse_as=True, doc="if the result is a single value (not a collection), output it"
+            " without quotes or whitespace, for easier usage in scripts")
+    cmd.add('--debug', parse_as=True, doc='interactively debug any errors that come up')
+    cmd.add('--inspect', parse_as=True, doc='interactively explore the data')
+    return cmd
+
+
+def main_ref(argv):
+    cmd = get_command()
+    return cmd.run(argv) or 0
